@@ -27,6 +27,12 @@ theorem invB_relWait2 {s : State} (hi : InvB s) (ha : InvA s) (t : Tid) (n : Wor
   refine invB_frame (t := t) hi ha (fun u hu => by simp [hu]) (fun q => ⟨rfl, rfl, rfl, rfl⟩) rfl (by simp) ?_
   tB_close
 
+theorem invB_relDbg {s : State} (hi : InvB s) (ha : InvA s) (t : Tid) (n : Word) (hl : (s.thr t).loc = .dWalk) :
+    InvB ({ s with word := n, holder := none }.setThr t { s.thr t with loc := .dRet }) := by
+  tB_facts hl
+  refine invB_frame (t := t) hi ha (fun u hu => by simp [hu]) (fun q => ⟨rfl, rfl, rfl, rfl⟩) rfl (by simp) ?_
+  tB_close
+
 theorem invB_relWait {s : State} (hi : InvB s) (ha : InvA s) (t : Tid) (n : Word) (hl : (s.thr t).loc = .wRel) :
     InvB ({ s with word := n, holder := none, seq := s.seq + 1 }.setRec (s.thr t).r
             { s.recs (s.thr t).r with pub := true, enqSeq := s.seq }
@@ -75,11 +81,14 @@ theorem invB_relSig {s : State} (hi : InvB s) (ha : InvA s) (t : Tid) (n : Word)
 
 theorem invB_acq_plain {s : State} (hi : InvB s) (ha : InvA s) (t : Tid) (n : Word) (lnew : Loc)
     (hl : (s.thr t).loc = .spCas)
-    (hc : (s.thr t).cont = .waitChk ∧ lnew = .wChk2 ∨ (s.thr t).cont = .waitn ∧ lnew = .nLocked) :
+    (hc : (s.thr t).cont = .waitChk ∧ lnew = .wChk2 ∨ (s.thr t).cont = .waitn ∧ lnew = .nLocked ∨
+      (s.thr t).cont = .dbg ∧ lnew = .dWalk) :
     InvB ({ s with word := n, holder := some t }.setThr t { s.thr t with old := s.word, loc := lnew }) := by
   tB_facts hl
   refine invB_frame (t := t) hi ha (fun u hu => by simp [hu]) (fun q => ⟨rfl, rfl, rfl, rfl⟩) rfl (by simp) ?_
-  rcases hc with ⟨hc, rfl⟩ | ⟨hc, rfl⟩
+  rcases hc with ⟨hc, rfl⟩ | ⟨hc, rfl⟩ | ⟨hc, rfl⟩
+  · simp only [hc] at b1 b2 b3 b4 b5 b6 b7 a3
+    tB_close
   · simp only [hc] at b1 b2 b3 b4 b5 b6 b7 a3
     tB_close
   · simp only [hc] at b1 b2 b3 b4 b5 b6 b7 a3
